@@ -1,7 +1,88 @@
 import PB.Model.FsAtomic
+import PB.Spec.FsCrash
+import PBProofs.Lemmas.FsAtomic
+/-
+C17 — Files are published atomically: old content or new content, never a fragment.
+
+The theorems are about the file-system model `PB.FsAtomic` (volatile view + crash semantics `Crash`) and the
+checker `safePublish` that `./check C17` runs on the system-call sequence recorded from every real writer.
+-/
 namespace PB.C17
 open PB.FsAtomic
 
-theorem placeholder : True := trivial
+/-- Soundness of the checker, single file / symlink destination. If `safePublish` accepts a call sequence `t`,
+    then at EVERY crash point (after every prefix `p` of `t`):
+    * a concurrent reader of `dest` (and a reader after a mere kill of the process) sees `old` or `new`;
+    * after a power loss — name space rolled back to that of ANY earlier point of the run, data of every inode
+      that was not fsynced after its last modification replaced by ARBITRARY data — a reader of `dest` still
+      sees `old` or `new`. -/
+theorem safePublish_sound (s0 : FS) (dest : Path) (old new : Obs) (t : List Call)
+    (h : safePublish s0 dest old new t = true) (p q : List Call) (hp : t = p ++ q) :
+    (vview (run s0 p) dest = old ∨ vview (run s0 p) dest = new) ∧
+    ∀ c : Crash s0 p, c.view dest = old ∨ c.view dest = new := by
+  subst hp
+  have hk : (chkRun dest old new (chkInit s0 dest old new) p).ok = true := by
+    apply chkRun_ok dest old new q
+    rw [← chkRun_append]; exact h
+  have hs := chkRun_sound dest old new p _ (chkInit_sound s0 dest old new) hk
+  have hst : (chkRun dest old new (chkInit s0 dest old new) p).s = run s0 p := chkRun_s dest old new p _
+  rw [hst] at hs
+  obtain ⟨hgood, habs, hvol⟩ := hs
+  refine ⟨(allowed_iff old new _).1 hvol, ?_⟩
+  intro c
+  apply (allowed_iff old new _).1
+  have hsplit := c.split
+  -- the checker state at the name-space point of the crash
+  have hwf := chkRun_wf dest old new c.pre _ (chkInit_wf s0 dest old new)
+  have hpre : (chkRun dest old new (chkInit s0 dest old new) c.pre).s = run s0 c.pre := chkRun_s dest old new c.pre _
+  have hrun : chkRun dest old new (chkInit s0 dest old new) p =
+      chkRun dest old new (chkRun dest old new (chkInit s0 dest old new) c.pre) c.post := by
+    rw [← chkRun_append, ← hsplit]
+  cases hl : lookup (run s0 c.pre).names dest with
+  | none =>
+    have ha : (chkRun dest old new (chkInit s0 dest old new) p).absent = true := by
+      rw [hrun]; apply chkRun_absent; apply hwf.2; rw [hpre]; exact hl
+    have : c.view dest = none := by simp [Crash.view, view, hl]
+    rw [this]; exact habs ha
+  | some i =>
+    have hi : i ∈ (chkRun dest old new (chkInit s0 dest old new) p).hist := by
+      rw [hrun]; apply chkRun_hist; apply hwf.1; rw [hpre]; exact hl
+    have hg := hgood i hi
+    unfold goodIno at hg
+    cases hn : inodeAt (run s0 p) i with
+    | none => simp [hn] at hg
+    | some n =>
+      simp only [hn, Bool.and_eq_true] at hg
+      obtain ⟨⟨hkind, hclean⟩, hall⟩ := hg
+      have hkind' : n.kind ≠ .dir := by simpa using hkind
+      have hv : c.view dest = some (nodeOf n (c.data i), []) :=
+        view_nondir _ _ _ _ i n hl hn hkind'
+      rw [hv, c.legal i n hn hclean]; exact hall
+
+/-- Soundness of the directory checker (archive unpacking): every intermediate state shows the previous state or
+    the complete new tree to a reader (and to a reader after a kill of the process). -/
+theorem safePublishDir_sound (dest : Path) (old new : Obs) (t : List Call) :
+    ∀ s0, safePublishDir s0 dest old new t = true → ∀ p q, t = p ++ q →
+      vview (run s0 p) dest = old ∨ vview (run s0 p) dest = new := by
+  induction t with
+  | nil =>
+    intro s0 h p q hp
+    have : p = [] := by
+      cases p with
+      | nil => rfl
+      | cons a b => exact absurd hp (by simp)
+    subst this
+    have h' : allowed old new (vview s0 dest) = true := h
+    exact (allowed_iff old new _).1 h'
+  | cons c t ih =>
+    intro s0 h p q hp
+    simp only [safePublishDir, Bool.and_eq_true] at h
+    cases p with
+    | nil => exact (allowed_iff old new _).1 h.1
+    | cons c' p' =>
+      simp only [List.cons_append, List.cons.injEq] at hp
+      obtain ⟨rfl, hp'⟩ := hp
+      rw [run_cons]
+      exact ih (step s0 c) h.2 p' q hp'
 
 end PB.C17
